@@ -239,11 +239,37 @@ func c13UnknownSyntaxAlways(c *Ctx, rule string) {
 	ncmp := 0
 	okAll := true
 	bad := ""
+	// the assumption: every comparison of the syntax with a constant fails.  Conditions are evaluated under it, so
+	// that a comparison may be computed into a variable first (`verbatim := syntax == "none" || syntax == ""`)
+	sc := newScenario([]*ssa.Function{pf})
+	cmpAt := map[*ssa.BasicBlock]int{}
+	ssau.Instrs(pf, func(in ssa.Instruction) {
+		bo, isB := in.(*ssa.BinOp)
+		if !isB || (bo.X != syn && bo.Y != syn) {
+			return
+		}
+		other := bo.Y
+		if bo.Y == syn {
+			other = bo.X
+		}
+		if _, isC := other.(*ssa.Const); !isC {
+			return
+		}
+		switch bo.Op.String() {
+		case "==":
+			sc.vals[bo] = false
+			cmpAt[bo.Block()]++
+		case "!=":
+			sc.vals[bo] = true
+			cmpAt[bo.Block()]++
+		}
+	})
 	seen := map[*ssa.BasicBlock]bool{pf.Blocks[0]: true}
 	stack := []*ssa.BasicBlock{pf.Blocks[0]}
 	for len(stack) > 0 {
 		x := stack[len(stack)-1]
 		stack = stack[:len(stack)-1]
+		ncmp += cmpAt[x]
 		last := x.Instrs[len(x.Instrs)-1]
 		if ret, isRet := last.(*ssa.Return); isRet {
 			if !returnsErr(x, nil) {
@@ -254,21 +280,11 @@ func c13UnknownSyntaxAlways(c *Ctx, rule string) {
 		}
 		succs := x.Succs
 		if iff, isIf := last.(*ssa.If); isIf {
-			if bo, isB := iff.Cond.(*ssa.BinOp); isB && (bo.X == syn || bo.Y == syn) {
-				other := bo.Y
-				if bo.Y == syn {
-					other = bo.X
-				}
-				if _, isC := other.(*ssa.Const); isC {
-					switch bo.Op.String() {
-					case "==":
-						ncmp++
-						succs = x.Succs[1:2]
-					case "!=":
-						ncmp++
-						succs = x.Succs[:1]
-					}
-				}
+			switch sc.eval(iff.Cond, nil, 0) {
+			case triTrue:
+				succs = x.Succs[:1]
+			case triFalse:
+				succs = x.Succs[1:2]
 			}
 		}
 		for _, y := range succs {
